@@ -278,6 +278,31 @@ def run(rng, tier, res=None, want=("knnpred", "select")):
                   f"{ints(sg.idx_nodes)} | {fb(sg.constant)} {fb(sg.min_density)} {fb(sg.max_density)} | {fb(sg.density)} | 1 0")
             lines.append(" ".join(line.split())); obs.append(ob); metas.append(meta)
             res.add_case(lines[-1], nontrivial=(max_k > 1)); res.hit("knnfit_pipeline")
+        if (not unsup) and (not asym) and kind != "sparse" and n >= 3 and rng.random() < 0.5:
+            # KNN-supervised through a pre-computed matrix of the training set: validation samples and queries are rows of that
+            # matrix addressed by index arrays (non-identity, repeated) — must equal training / predicting on the same rows by features
+            try:
+                Mtr = np.array([[float(fn(X[a_].copy(), X[b_].copy())) for b_ in range(n)] for a_ in range(n)])
+                if np.all(np.isfinite(Mtr)):
+                    Ivp = [rng.randrange(n) for _ in range(nv)]
+                    Iqp = [rng.randrange(n) for _ in range(max(2, nq))]
+                    Yvp = np.array([int(Y[t_]) if rng.random() < 0.7 else int(Y[rng.randrange(n)]) for t_ in Ivp], dtype=int)
+                    Yvp[0] = int(max(Y))
+                    pa_ = KS.KNNSupervisedOPF(max_k=max_k, distance=metric)
+                    pa_.pre_computed_distance = True; pa_.pre_distances = Mtr
+                    pa_.fit(X.copy(), Y.copy(), X[Ivp].copy(), Yvp.copy(), np.arange(n), np.array(Ivp))
+                    ra_ = list(pa_.predict(X[Iqp].copy(), np.array(Iqp)))
+                    pb_ = KS.KNNSupervisedOPF(max_k=max_k, distance=metric)
+                    pb_.fit(X.copy(), Y.copy(), X[Ivp].copy(), Yvp.copy())
+                    rb_ = list(pb_.predict(X[Iqp].copy()))
+                    if pa_.subgraph.best_k != pb_.subgraph.best_k or ra_ != rb_:
+                        for pp_ in ("C14", "C10"):
+                            viol(pp_, f"KNN-supervised on a pre-computed matrix with index arrays (validation rows {Ivp}, query rows {Iqp}): "
+                                      f"best_k {pa_.subgraph.best_k}, predictions {ra_}; the same samples by features: best_k {pb_.subgraph.best_k}, "
+                                      f"predictions {rb_}", meta)
+                    res.hit("knn_precomputed_rows_vs_features")
+            except Exception as ex:
+                viol("C14", f"KNN-supervised on a pre-computed training matrix with index arrays raised {type(ex).__name__}: {ex}", meta)
         # ---------------- select (C16) ----------------
         if "select" in want:
             if unsup:
@@ -454,6 +479,12 @@ def run(rng, tier, res=None, want=("knnpred", "select")):
                 m = len(order)
                 mine = calls[ci:ci + m]; ci += m
                 dens_obs = mine[0][1] if mine else 0.0
+                if not np.isfinite(dens_obs):
+                    if all(np.isfinite(v_) for v_ in (sg.min_density, sg.max_density, sg.constant)) and sg.constant != 0:
+                        viol("C14", f"query {t}: the density compared with the neighbours' costs is {dens_obs!r} although every distance to the "
+                                    f"training samples and the trained density range [{sg.min_density}, {sg.max_density}] are finite", dict(meta, Q=Q.tolist(), t=t))
+                    res.hit("knnq_nonfinite_query_density")
+                    continue
                 line = (f"knnq {best_k} {n} {TOP} {NEGTOP} {enc(dens_obs)} {ints(enc(v) for v in dists)} {ints(costs)} "
                         f"{ints(labs)} {ints(cl)}")
                 ob = f"{ints(enc(a) for a, _ in mine)} | {preds[t]} {clus[t]}"
